@@ -496,6 +496,20 @@ func checkView(t ev.T, test string, c Case) {
 	if d := diffView(got, after); len(d) > 0 {
 		ev.Fail(t, prop, test, c, "%s view changed although every mutation was refused: %v", c.View, head(d))
 	}
+	// the times of an entry are served like its other attributes (an archive only knows modification times)
+	if existingFile != "" {
+		ev.Guard(t, prop, test, c, func() {
+			st, serr := view.Stat(existingFile)
+			ti, terr := view.StatTimes(existingFile)
+			if serr == nil && (terr != nil || ti == nil || !ti.ModTime().Equal(st.ModTime())) {
+				mt := "<nil>"
+				if ti != nil {
+					mt = ti.ModTime().String()
+				}
+				ev.Fail(t, prop, test, c, "%s view: Stat(%q) gives the modification time %v but StatTimes gives %s (error %v)", c.View, existingFile, st.ModTime(), mt, terr)
+			}
+		})
+	}
 	// once closed, nothing is served any more
 	if cerr := view.Close(); cerr != nil {
 		ev.Fail(t, prop, test, c, "Close failed: %v", cerr)
@@ -530,7 +544,7 @@ var noArchiveNeeded = map[string]string{
 }
 
 // direct accessors: must report the 'failed condition' kind once the archive is closed.
-var directAccessors = map[string]bool{"Stat": true, "Lstat": true, "GenericOpen": true, "Open": true, "OpenFile": true, "ReadFile": true}
+var directAccessors = map[string]bool{"Stat": true, "StatTimes": true, "Lstat": true, "GenericOpen": true, "Open": true, "OpenFile": true, "ReadFile": true}
 
 func checkClosed(t ev.T, test string, c Case, view filesystem.ICloseableFS, existingFile, existingDir string) {
 	rv := reflect.ValueOf(view)
